@@ -255,6 +255,21 @@ class Evaluator:
                 ca, cb = a.const_value(), b.const_value()
                 if ca is not None and cb is not None and cb != 0 and ca.denominator == 1 and cb.denominator == 1:
                     return Poly.const(int(ca) % int(cb))
+                if cb is not None and cb.denominator == 1 and cb > 0:
+                    # (k*X + c) mod k == c mod k for integer-valued monomials X
+                    k = int(cb)
+                    rest = Poly()
+                    const = Fraction(0)
+                    ok = True
+                    for m, c in a.t.items():
+                        if m == ():
+                            const = c
+                        elif c.denominator == 1 and int(c) % k == 0 and self.facts.is_integer(Poly({m: Fraction(1)})):
+                            continue
+                        else:
+                            ok = False
+                    if ok and const.denominator == 1:
+                        return Poly.const(int(const) % k)
                 return self.atom("mod", a, b)
             if isinstance(e.op, ast.Pow):
                 cb = b.const_value()
@@ -308,6 +323,17 @@ class Evaluator:
                     return Poly.const(round(cv))
                 if self.facts.is_integer(x):
                     return x
+                # integer-valued part + rational constant: round the constant alone
+                cpart = x.t.get((), Fraction(0))
+                ipart = Poly({m: c for m, c in x.t.items() if m != ()})
+                if not ipart.is_zero() and self.facts.is_integer(ipart) and fn not in ("numpy.round", "numpy.rint", "numpy.around", "round"):
+                    import math
+                    if fn in ("numpy.ceil", "math.ceil"):
+                        return ipart + Poly.const(math.ceil(cpart))
+                    if fn in ("numpy.floor", "math.floor"):
+                        return ipart + Poly.const(math.floor(cpart))
+                    if fn in ("int", "numpy.int32", "numpy.int64") and "nonneg" in getattr(self, "hints", ()):
+                        return ipart + Poly.const(math.floor(cpart))
                 a = self.atom(fn.split(".")[-1], x)
                 if fn not in self.FLOATERS:
                     self.facts.int_syms |= a.symbols()  # ceil/floor/round/int of anything is an integer
